@@ -17,6 +17,7 @@ import (
 	"sort"
 	"strconv"
 	"strings"
+	"syscall"
 	"time"
 
 	"pgregory.net/rapid"
@@ -61,6 +62,8 @@ type RtspCase struct {
 	// Udp: SETUP with client_port, RTP as loopback datagrams to the ports lal allocates (read by lal's own
 	// per-track UDP goroutines) instead of interleaved frames on the RTSP connection.
 	Udp bool `json:"udp,omitempty"`
+	// Rtcp: sender reports, SDES and BYE on the RTCP channel / port (see rtcp_test.go)
+	Rtcp RtcpPlan `json:"rtcp"`
 }
 
 type wirePkt struct {
@@ -382,8 +385,53 @@ func (a *ackedSender) wait() {
 }
 
 type udpTrack struct {
-	sock *net.UDPConn
-	dst  *net.UDPAddr
+	sock    *net.UDPConn // RTP, bound to client_port
+	dst     *net.UDPAddr
+	rtcp    *net.UDPConn // RTCP, bound to client_port+1
+	rtcpDst *net.UDPAddr
+}
+
+// udpPair binds two loopback sockets on consecutive ports (RTP on the lower one).
+func udpPair() (rtp, rtcp *net.UDPConn) {
+	for i := 0; i < 200; i++ {
+		a, err := net.ListenUDP("udp4", &net.UDPAddr{IP: net.IPv4(127, 0, 0, 1)})
+		if err != nil {
+			lalclient.Harness("c07: udp socket: %v", err)
+		}
+		port := a.LocalAddr().(*net.UDPAddr).Port
+		if port < 65535 {
+			if b, err := net.ListenUDP("udp4", &net.UDPAddr{IP: net.IPv4(127, 0, 0, 1), Port: port + 1}); err == nil {
+				return a, b
+			}
+		}
+		_ = a.Close()
+	}
+	lalclient.Harness("c07: no pair of consecutive free udp ports")
+	return nil, nil
+}
+
+// drainSock returns the datagrams waiting in the socket's receive queue without ever blocking (a read deadline
+// would make the result depend on scheduling: an expired deadline fails the read before the queue is looked at).
+func drainSock(c *net.UDPConn) [][]byte {
+	var out [][]byte
+	rc, err := c.SyscallConn()
+	if err != nil {
+		lalclient.Harness("c07: SyscallConn: %v", err)
+	}
+	buf := make([]byte, 2048)
+	_ = rc.Read(func(fd uintptr) bool {
+		for {
+			n, _, err := syscall.Recvfrom(int(fd), buf, syscall.MSG_DONTWAIT)
+			if err == syscall.EINTR {
+				continue
+			}
+			if err != nil {
+				return true
+			}
+			out = append(out, append([]byte(nil), buf[:n]...))
+		}
+	})
+	return out
 }
 
 // publishUDP is rtspref.Client.Publish with UDP transport: OPTIONS, ANNOUNCE, one SETUP per track announcing a
@@ -407,30 +455,29 @@ func publishUDP(cl *rtspref.Client, uri string, tracks []rtspref.Track) ([]udpTr
 	}
 	var out []udpTrack
 	for _, t := range tracks {
-		sock, err := net.ListenUDP("udp4", &net.UDPAddr{IP: net.IPv4(127, 0, 0, 1)})
-		if err != nil {
-			lalclient.Harness("c07: udp socket: %v", err)
-		}
-		out = append(out, udpTrack{sock: sock})
+		sock, rtcpSock := udpPair()
+		out = append(out, udpTrack{sock: sock, rtcp: rtcpSock})
 		port := sock.LocalAddr().(*net.UDPAddr).Port
 		r, err := do("SETUP", uri+"/"+t.Control, map[string]string{"Transport": fmt.Sprintf("RTP/AVP/UDP;unicast;client_port=%d-%d;mode=record", port, port+1)}, nil)
 		if err != nil {
 			return out, r, err
 		}
-		sp := 0
+		sp, sp2 := 0, 0
 		for _, f := range strings.Split(r.Headers["transport"], ";") {
 			if strings.HasPrefix(strings.TrimSpace(f), "server_port=") {
 				v := strings.TrimPrefix(strings.TrimSpace(f), "server_port=")
 				if i := strings.IndexByte(v, '-'); i >= 0 {
+					sp2, _ = strconv.Atoi(v[i+1:])
 					v = v[:i]
 				}
 				sp, _ = strconv.Atoi(v)
 			}
 		}
-		if sp <= 0 || sp > 65535 {
-			return out, r, fmt.Errorf("SETUP response without usable server_port: Transport: %q", r.Headers["transport"])
+		if sp <= 0 || sp > 65535 || sp2 <= 0 || sp2 > 65535 {
+			return out, r, fmt.Errorf("SETUP response without usable server_port pair: Transport: %q", r.Headers["transport"])
 		}
 		out[len(out)-1].dst = &net.UDPAddr{IP: net.IPv4(127, 0, 0, 1), Port: sp}
+		out[len(out)-1].rtcpDst = &net.UDPAddr{IP: net.IPv4(127, 0, 0, 1), Port: sp2}
 	}
 	if r, err := do("RECORD", uri, map[string]string{"Range": "npt=0.000-"}, nil); err != nil {
 		return out, r, err
@@ -458,6 +505,7 @@ func runRtspOnce(c *RtspCase, pk []wirePkt) ([]observed, *pbt.Violation) {
 		defer func() {
 			for _, u := range udp {
 				_ = u.sock.Close()
+				_ = u.rtcp.Close()
 			}
 		}()
 	} else {
@@ -506,20 +554,84 @@ func runRtspOnce(c *RtspCase, pk []wirePkt) ([]observed, *pbt.Violation) {
 		}
 		return nil
 	}
+	// ---- RTCP bookkeeping (rtcp_test.go)
+	plan := c.Rtcp
+	tr := [2]*rtcpTrack{{ssrc: c.VSsrc, clock: 90000}, {ssrc: c.ASsrc, clock: c.S.AClock}}
+	present := [2]bool{c.S.Video != "", c.S.Audio != ""}
+	rtpCh := [2]int{chV, chA}
+	type reply struct {
+		track int  // -1: no track of the session uses this channel
+		onRtp bool // arrived on the RTP channel / socket of the track
+		ch    int
+		b     []byte
+	}
+	var replies []reply
+	judgeRtcp := func() *pbt.Violation {
+		got := [2]int{}
+		for _, r := range replies {
+			where := fmt.Sprintf("interleaved channel %d", r.ch)
+			if c.Udp {
+				where = "the RTP socket"
+			}
+			if r.track < 0 {
+				return pbt.V("rtcp/report-on-unknown-channel", "lal sent %d bytes (% x) on %s, which no track of the session uses (rtp channels video=%d audio=%d)", len(r.b), r.b[:minInt(len(r.b), 16)], where, chV, chA)
+			}
+			if r.onRtp {
+				return pbt.V("rtcp/report-on-rtp-channel", "lal sent %d bytes (% x) to the publisher on %s of track %d: that is the RTP channel, reports belong on the RTCP channel", len(r.b), r.b[:minInt(len(r.b), 16)], where, r.track)
+			}
+			if _, err := checkRtcp(r.b); err != nil {
+				return pbt.V("rtcp/malformed-report", "lal's RTCP packet for track %d (% x) is not well-formed: %v", r.track, r.b, err)
+			}
+			got[r.track]++
+		}
+		for t := 0; t < 2; t++ {
+			if present[t] && tr[t].eligible > 0 && got[t] == 0 {
+				return pbt.V("rtcp/no-receiver-report", "%d sender reports for track %d (ssrc %#x) were sent on its RTCP channel after lal had processed RTP of that track; no receiver report came back on that channel (%d RTCP packets on the other)", tr[t].eligible, t, tr[t].ssrc, got[1-t])
+			}
+		}
+		return nil
+	}
+	finish := func() ([]observed, *pbt.Violation) {
+		obs, v := x.finish()
+		if v != nil {
+			return nil, v
+		}
+		if v := judgeRtcp(); v != nil {
+			return nil, v
+		}
+		return obs, nil
+	}
 	if c.Udp {
 		// track index in SDP order = interleaved channel / 2
 		acks := &ackedSender{s: s}
 		var last [2][]byte
 		send := func(track int, raw []byte) {
-			ch := chV
-			if track == 1 {
-				ch = chA
-			}
-			u := udp[ch/2]
+			u := udp[rtpCh[track]/2]
 			if _, err := u.sock.WriteToUDP(raw, u.dst); err != nil {
 				lalclient.Harness("c07: udp send: %v", err)
 			}
 			acks.sent(len(raw))
+		}
+		sendRtcp := func(track int, b []byte) {
+			u := udp[rtpCh[track]/2]
+			if _, err := u.rtcp.WriteToUDP(b, u.rtcpDst); err != nil {
+				lalclient.Harness("c07: udp send (rtcp): %v", err)
+			}
+			acks.sent(len(b))
+		}
+		collect := func() {
+			for t := 0; t < 2; t++ {
+				if !present[t] {
+					continue
+				}
+				u := udp[rtpCh[t]/2]
+				for _, b := range drainSock(u.rtcp) {
+					replies = append(replies, reply{track: t, b: b})
+				}
+				for _, b := range drainSock(u.sock) {
+					replies = append(replies, reply{track: t, onRtp: true, b: b})
+				}
+			}
 		}
 		// barrier: lal handles each track in a goroutine of its own, packet by packet; a duplicate of the track's last
 		// packet (discarded by the reorder list either as stale or as already present) that has been counted proves
@@ -532,10 +644,25 @@ func runRtspOnce(c *RtspCase, pk []wirePkt) ([]observed, *pbt.Violation) {
 				}
 			}
 			acks.wait()
+			for t := 0; t < 2; t++ {
+				tr[t].settled = tr[t].have
+			}
+			collect()
+		}
+		if plan.First {
+			for t := 0; t < 2; t++ {
+				if present[t] {
+					sendRtcp(t, tr[t].report(plan, false))
+				}
+			}
 		}
 		for i, p := range pk {
 			send(p.track, p.raw)
 			last[p.track] = p.raw
+			tr[p.track].onRtp(p.raw)
+			if plan.Every > 0 && i%plan.Every == plan.Every-1 {
+				sendRtcp(p.track, tr[p.track].report(plan, false))
+			}
 			if i%syncEvery == syncEvery-1 {
 				barrier()
 				if v := x.sync(); v != nil {
@@ -544,27 +671,95 @@ func runRtspOnce(c *RtspCase, pk []wirePkt) ([]observed, *pbt.Violation) {
 			}
 		}
 		barrier()
+		if plan.active() {
+			// two more reports per track: the RTCP socket of a track is read by one goroutine, so once the second has
+			// been counted the answer to the first has been written
+			for t := 0; t < 2; t++ {
+				if present[t] {
+					sendRtcp(t, tr[t].report(plan, false))
+					tr[t].reports-- // the repeat is a probe, not a report of its own
+					tr[t].eligible--
+					sendRtcp(t, tr[t].report(plan, false))
+				}
+			}
+			acks.wait()
+			collect()
+			if plan.Bye {
+				for t := 0; t < 2; t++ {
+					if present[t] {
+						tr[t].eligible-- // nothing is read after the BYE
+						sendRtcp(t, tr[t].report(plan, true))
+					}
+				}
+				acks.wait()
+			}
+		}
 		if conn.PeerGone() {
 			if v := s.PanicViolation(); v != nil {
 				return nil, v
 			}
 			return nil, pbt.V("rtsp/publisher-disconnected", "lal ended the publishing session while RTP was being delivered")
 		}
-		return x.finish()
+		return finish()
+	}
+	sendRtcp := func(track int, b []byte) error { return cl.WriteFrame(rtpCh[track]+1, b) }
+	// collect: an OPTIONS round trip (clients use it as keep-alive); its response travels through the same write
+	// queue as lal's interleaved RTCP, so every report written before it has been read when it arrives
+	collect := func() *pbt.Violation {
+		if !plan.active() {
+			return nil
+		}
+		_ = conn.SetReadDeadline(time.Now().Add(lalclient.IdleTimeout))
+		if _, err := cl.Do("OPTIONS", uri, nil, nil); err != nil {
+			if v := s.PanicViolation(); v != nil {
+				return v
+			}
+			return pbt.V("rtsp/publisher-disconnected", "OPTIONS inside the publishing session failed: %v", err)
+		}
+		for _, f := range cl.Pending {
+			r := reply{track: -1, ch: f.Channel, b: f.Payload}
+			for t := 0; t < 2; t++ {
+				if present[t] && (f.Channel == rtpCh[t] || f.Channel == rtpCh[t]+1) {
+					r.track, r.onRtp = t, f.Channel == rtpCh[t]
+				}
+			}
+			replies = append(replies, r)
+		}
+		cl.Pending = nil
+		return nil
+	}
+	fail := func(err error) ([]observed, *pbt.Violation) {
+		if v := s.PanicViolation(); v != nil {
+			return nil, v
+		}
+		return nil, pbt.V("rtsp/publisher-disconnected", "lal closed the publisher's connection: %v", err)
+	}
+	if plan.First {
+		for t := 0; t < 2; t++ {
+			if present[t] {
+				if err := sendRtcp(t, tr[t].report(plan, false)); err != nil {
+					return fail(err)
+				}
+			}
+		}
 	}
 	for i, p := range pk {
-		ch := chV
-		if p.track == 1 {
-			ch = chA
+		if err := cl.WriteFrame(rtpCh[p.track], p.raw); err != nil {
+			return fail(err)
 		}
-		if err := cl.WriteFrame(ch, p.raw); err != nil {
-			if v := s.PanicViolation(); v != nil {
-				return nil, v
+		// the RTSP connection is read by one goroutine: whatever follows this packet is handled after it
+		tr[p.track].onRtp(p.raw)
+		tr[p.track].settled = true
+		if plan.Every > 0 && i%plan.Every == plan.Every-1 {
+			if err := sendRtcp(p.track, tr[p.track].report(plan, false)); err != nil {
+				return fail(err)
 			}
-			return nil, pbt.V("rtsp/publisher-disconnected", "lal closed the publisher's connection: %v", err)
 		}
 		if i%syncEvery == syncEvery-1 {
 			if v := drain(); v != nil {
+				return nil, v
+			}
+			if v := collect(); v != nil {
 				return nil, v
 			}
 			if v := x.sync(); v != nil {
@@ -572,10 +767,22 @@ func runRtspOnce(c *RtspCase, pk []wirePkt) ([]observed, *pbt.Violation) {
 			}
 		}
 	}
+	if plan.Bye {
+		for t := 0; t < 2; t++ {
+			if present[t] {
+				if err := sendRtcp(t, tr[t].report(plan, true)); err != nil {
+					return fail(err)
+				}
+			}
+		}
+	}
 	if v := drain(); v != nil {
 		return nil, v
 	}
-	return x.finish()
+	if v := collect(); v != nil {
+		return nil, v
+	}
+	return finish()
 }
 
 func runRtsp(c RtspCase) *pbt.Violation {
@@ -686,7 +893,17 @@ func genRtsp(t *rapid.T) RtspCase {
 	}
 	seq := rapid.OneOf(rapid.Uint16(), rapid.Uint16Range(65400, 65535), rapid.SampledFrom([]uint16{0, 65535, 65534, 32767, 32768}))
 	c.VSeq, c.ASeq = seq.Draw(t, "vseq"), seq.Draw(t, "aseq")
-	c.VSsrc, c.ASsrc = rapid.Uint32().Draw(t, "vssrc"), rapid.Uint32().Draw(t, "assrc")
+	// SSRCs: distinct (RFC 3550 8.1) and not 0, the value lal's "no packet seen yet" state compares equal to
+	c.VSsrc, c.ASsrc = rapid.Uint32Range(1, 1<<32-1).Draw(t, "vssrc"), rapid.Uint32Range(1, 1<<32-1).Draw(t, "assrc")
+	if c.ASsrc == c.VSsrc {
+		c.ASsrc ^= 0x5A5A5A5A
+	}
+	if rapid.IntRange(0, 3).Draw(t, "rtcp") != 1 {
+		c.Rtcp.Every = rapid.SampledFrom([]int{1, 1, 2, 3, 7, 50, 0}).Draw(t, "rtcpEvery")
+		c.Rtcp.First = rapid.Bool().Draw(t, "rtcpFirst")
+		c.Rtcp.Sdes = rapid.SampledFrom([]int{0, 1, 1, 3}).Draw(t, "rtcpSdes")
+		c.Rtcp.Bye = rapid.Bool().Draw(t, "rtcpBye")
+	}
 	c.Pert = genPerturb(t)
 	return c
 }
@@ -697,6 +914,24 @@ func classifyRtsp(c RtspCase) (bool, []string) {
 		l = append(l, "transport:udp")
 	} else {
 		l = append(l, "transport:interleaved")
+	}
+	if c.Rtcp.active() {
+		if c.Rtcp.Every == 1 {
+			l = append(l, "rtcp:sr-after-every-packet(between-fragments)")
+		} else if c.Rtcp.Every > 1 {
+			l = append(l, "rtcp:sr-every-n")
+		}
+		if c.Rtcp.First {
+			l = append(l, "rtcp:sr-before-first-rtp")
+		}
+		if c.Rtcp.Sdes > 0 {
+			l = append(l, "rtcp:compound-sr+sdes")
+		}
+		if c.Rtcp.Bye {
+			l = append(l, "rtcp:bye-at-end")
+		}
+	} else {
+		l = append(l, "rtcp:none")
 	}
 	pk := c.packets()
 	modes := map[string]bool{}
